@@ -174,3 +174,58 @@ def repr_shows(a: int, x: int, y: int, px: bool, u: int) -> int:
     if shown != want:
         return 0
     return 2
+
+
+@datasetclass
+class WithMutable:
+    a: int = Option("A")
+    tags: list = ["raw"]
+    meta: dict = {"k": [1]}
+
+
+@datasetclass
+class SubMutable(WithMutable):
+    extra: int = 1
+
+
+@harness("C19", lemma="plain-members-fresh", example=dict(a=1, b=2), timeout=120,
+         bounds="a dataset class with mutable plain members (list, dict), and a subclass inheriting them; instances built, mutated in "
+                "place, then further instances built",
+         what="every instance gets each plain member as its declared constant, whatever earlier instances did to theirs")
+def plain_members_fresh(a: int, b: int) -> int:
+    i1 = WithMutable({"A": a})
+    i1.tags.append("cleaned")
+    i1.meta["k"].append(2)
+    i2 = WithMutable({"A": b})
+    i3 = SubMutable({"A": b})
+    note("after mutating the first instance's members: second", i2.tags, i2.meta, "subclass instance", i3.tags, i3.meta)
+    if i2.tags != ["raw"] or i2.meta != {"k": [1]} or i3.tags != ["raw"] or i3.meta != {"k": [1]}:
+        return 0
+    if not same(i2.a, b) or i3.extra != 1:
+        return 0
+    return 2
+
+
+@harness("C19", lemma="built-from-snapshot", cubes={"which": [0, 1]}, example=dict(which=0, v0=1, v1=2, v2=3, w=9, key=1),
+         pre=["0 <= key <= 2"], timeout=300,
+         bounds="one options dictionary reused: an instance is built, then the dictionary is updated in place under a reported key "
+                "(flat or nested dotted) BEFORE the instance is first compared or printed",
+         what="equality follows the options each instance was BUILT from: later in-place changes of the caller's dictionary do not "
+              "change which instances are equal")
+def built_from_snapshot(which: int, v0: int, v1: int, v2: int, w: int, key: int) -> int:
+    cls = [Base, Child][which]
+    o = {"A": v0, "S": {"X": v1, "T": {"Y": v2}}}
+    i1 = cls(o)
+    if key == 0:
+        o["A"] = w
+    elif key == 1:
+        o["S"]["X"] = w
+    else:
+        o["S"]["T"]["Y"] = w
+    i2 = cls(o)
+    old = [v0, v1, v2][key] if 0 <= key <= 2 else v0
+    eq = (i1 == i2)
+    note("built from", (v0, v1, v2), "then key", key, "set to", w, "instances equal", eq)
+    if eq != (old == w):
+        return 0
+    return 2
